@@ -376,7 +376,35 @@ def showQuicAnswer : Option Nat → String
   | some k => "a" ++ toString k
   | none => "a-"
 
+/-- the three policies of the `res` cases: `a`, `b` have a client_authentication block (trusted CA 1
+    resp. CA 2), `c` is the catch-all without one -/
+def resConf : String → Option (Option CAConf)
+  | "a" => some (some ⟨.none, .good, .none, .none, false, .empty⟩)
+  | "b" => some (some ⟨.none, .good, .none, .none, false, .empty⟩)
+  | "c" => some none
+  | _ => none
+
+/-- a FULL handshake under the policy completes for the harness client (certificate from CA 1) -/
+def resFullOk : String → Bool
+  | "b" => false
+  | _ => true
+
+/-- crypto/tls can resume a session issued under one config on another iff both have session
+    tickets on (the ticket keys are shared through the tls app's session_tickets service) -/
+def resCanResume (p q : Built) : Bool := !p.ticketsOff && !q.ticketsOff
+
 def handle : List String → String
+  | ["res", x, y] =>
+    match resConf x, resConf y with
+    | some cx, some cy =>
+      match provisionPolicyCA cx, provisionPolicyCA cy with
+      | some bx, some by_ =>
+        let h1 := resFullOk x
+        let resumed := h1 && resCanResume bx by_
+        let h2 := resumed || resFullOk y
+        "h1=" ++ (if h1 then "ok" else "f") ++ " h2=" ++ (if h2 then "ok" else "f") ++ " resumed=" ++ bit resumed
+      | _, _ => "bad-op"
+    | _, _ => "bad-op"
   | ["quic", ops] =>
     match (ops.splitOn ",").mapM parseQuicOp with
     | none => "bad-op"
